@@ -234,6 +234,14 @@ class C07(Prop):
             segs += data + [0] * (25 - len(data)) + [0x80 | (len(data) << 2)]
             lines.append(f"app_packets {mode} " + " ".join(map(str, segs)))
             nvalid += 1
+        # the longest packets the 5-bit segment counter allows (32 full segments + a last one), after each kind of link setup frame
+        for mode in (0, 1, 2):
+            for lastn in (0, 1, 22, 23, 24, 25, 31):
+                segs = []
+                for k in range(32):
+                    segs += [rng.randrange(256) for _ in range(25)] + [k << 2]
+                segs += [rng.randrange(256) for _ in range(25)] + [0x80 | (lastn << 2)]
+                lines.append(f"app_packets {mode} " + " ".join(map(str, segs)))
         lines.append("app_packets 1 " + " ".join(map(str, [0] * 25 + [0x80])))        # RAW mode, EOF first, size 0
         lines.append("app_packets 0 " + " ".join(map(str, [0] * 25 + [0x80])))
         vals = [0, 1, 40 ** 9 - 1, 40 ** 9, 40 ** 9 + 1, 2 ** 48 - 2, 2 ** 48 - 1] + [rng.randrange(2 ** 48) for _ in range(200)]
@@ -300,8 +308,8 @@ class C07(Prop):
         rng = ctx.rng
         g = decgen.Gen(rng)
         reached = 0
-        for trial in range(8 if ctx.tier == "quick" else 60):
-            kind = ("pkt_raw", "pkt_enc", "bert", "pkt_raw")[trial % 4]
+        for trial in range(20 if ctx.tier == "quick" else 80):
+            kind = ("pkt_raw", "bert", "pkt_enc")[trial % 3]
             if kind == "bert":
                 samples, _ = demodlib.bert_transmission(ctx, mod, rng.randrange(6, 30), start=rng.randrange(1, 512))
             else:
@@ -315,14 +323,16 @@ class C07(Prop):
                     nfr = (len(content) + 24) // 25
                 samples, _ = demodlib.packet_transmission(ctx, mod, rng, g.rand_lsf(0x0002 if kind == "pkt_raw" else 0x0004), nfr, content=content)
             s2 = list(samples)
-            if trial >= 4 and trial % 3 == 0:
+            if trial >= 10 and trial % 3 == 0:
                 for _ in range(rng.randrange(1, 12)):
                     i = rng.randrange(len(s2)); n = rng.randrange(1, 2500); k = rng.random()
                     for j in range(i, min(len(s2), i + n)):
                         s2[j] = 0 if k < 0.4 else (rng.randrange(-32768, 32768) if k < 0.8 else -s2[j])
             p = {"gain": rng.choice([500, 1000, 2000]), "dc": rng.randrange(-100, 100), "sigma": rng.choice([0, 0, 100]), "delay": rng.randrange(1000),
-                 "ppm": rng.randrange(-100, 100), "lead": 0, "leadn": 0, "level": 0, "seed": rng.randrange(10 ** 6), "app": 1}
-            if trial < 4:
+                 "ppm": rng.randrange(-100, 100), "lead": 2, "leadn": 6000 + (trial % 10 if trial < 10 else rng.randrange(0, 200)), "level": 5000, "seed": rng.randrange(10 ** 6), "app": 1}
+            # (open-squelch noise of every length modulo 10 in front: every phase of the transmission against the correlator's 10-sample index
+            # cycle; with silence in front the receiver as it stands takes the link setup frame - and with it the packet mode - at two phases only)
+            if trial < 10:
                 p.update(gain=1000, dc=0, sigma=0, delay=0, ppm=0)
             ln, rep, rc, err = demodlib.run_rx(ctx, demod, p, s2)
             ctx.count(("other-modes", kind, trial, tuple(sorted(p.items()))), nontrivial=True)
@@ -335,7 +345,10 @@ class C07(Prop):
             # was the mode actually reached? (same signal, bare callback)
             p0 = dict(p); p0["app"] = 0
             _, rep0, rc0, _ = demodlib.run_rx(ctx, demod, p0, s2)
-            _, frs = demodlib.parse_frames(rep0)
+            h0, frs = demodlib.parse_frames(rep0)
+            if h0 and (h0[0] > 9 or h0[1] >= 368):
+                ctx.violate("rxpath:index-range", f"index out of its documented range while receiving a {kind} transmission: sample_index max {h0[0]} (0-9), framer fill max {h0[1]} (<368)",
+                            {"stream": "rxpath", "ops_file": demodlib.save_ops([ln]), "params": p0})
             got = sum(1 for f in frs if f[0] == ("B" if kind == "bert" else "P"))
             ctx.stat(f"rx:{kind}:frames-delivered", got)
             reached += 1 if got else 0
